@@ -1,16 +1,695 @@
 /-
-C06 — property theorems (see DESIGN.md §7 C06). First theorems; the refinement
-theorems are being added.
+C06 — `ska align` column filtering: refinement of `Arr.filter` / `Modes.align`
+to the plain-table specification `Table.passes` / `Table.alignColumns`.
+
+Finding recorded here: `keepRow = sitePasses` is FALSE on byte 13 (CR), because the
+implementation tests `(b ||| 0x20) == 45`, which holds for `b = 13` as well as `b = 45`
+(see `keepRow_ne_sitePasses_CR`). The theorems are therefore stated
+  * unconditionally with the model-level predicate `passesI` (`…_I` theorems), and
+  * against the specification under `CellsGe45` — the invariant `MergeSkaArray::new`
+    establishes through `max b GAP` (`ofDict_cellsGe45`).
 -/
 import SkaModel.Spec.Abs
+import SkaModel.Lemmas.Bytes
+import SkaModel.Lemmas.Filter
 
 namespace SkaModel.Props.C06
 
-open SkaModel SkaModel.Spec
+open SkaModel SkaModel.Spec SkaModel.Lemmas.Filter
 
 /-- masking happens after the row selection and does not change which rows are kept -/
 theorem T06_mask_keeps_rows (a : Arr) (t : Nat) (famb : Bool) (ft : FilterType) (gaps upd : Bool) :
     (a.filter t famb ft true gaps upd).2 = (a.filter t famb ft false gaps upd).2 := by
   simp [Arr.filter]
+
+/-! ## Hypotheses -/
+
+/-- every stored cell is `≥ '-'` (45): what `MergeSkaArray::new` establishes via `max b GAP` -/
+def CellsGe45 (rows : List (List UInt8)) : Prop := ∀ row ∈ rows, ∀ b ∈ row, 45 ≤ b
+
+instance (rows : List (List UInt8)) : Decidable (CellsGe45 rows) := by
+  unfold CellsGe45; infer_instance
+
+theorem ge45_max : ∀ c : UInt8, 45 ≤ max c GAP :=
+  forall_uint8 (by decide +kernel)
+
+/-- `Arr.ofDict` (= `MergeSkaArray::new`) always yields cells `≥ 45` -/
+theorem ofDict_cellsGe45 (W : Nat) (d : MDict) : CellsGe45 (Arr.ofDict W d).variants := by
+  intro row hrow b hb
+  simp only [Arr.ofDict, List.mem_map] at hrow
+  obtain ⟨kv, _, rfl⟩ := hrow
+  simp only [List.mem_map] at hb
+  obtain ⟨c, _, rfl⟩ := hb
+  exact ge45_max c
+
+/-! ## Byte facts -/
+
+/-- the score of `keepRow .noAmbigOrConst` -/
+def score (gaps : Bool) (b : UInt8) : Nat :=
+  let l := b ||| 0x20
+  if l == 97 || l == 99 || l == 103 || l == 116 || l == 117 then 1
+  else if l == 45 then (if gaps then 0 else 1)
+  else 0
+
+theorem keepRow_noAmbigOrConst (gaps : Bool) (row : List UInt8) :
+    Arr.keepRow .noAmbigOrConst gaps row = decide (((Arr.distinct row).map (score gaps)).sum > 1) := rfl
+
+theorem score_true : ∀ b : UInt8,
+    score true b = if (Table.isACGTU b || (b == gap && !true)) then 1 else 0 :=
+  forall_uint8 (by decide +kernel)
+
+theorem score_false : ∀ b : UInt8, b ≠ 13 →
+    score false b = if (Table.isACGTU b || (b == gap && !false)) then 1 else 0 :=
+  forall_uint8 (by decide +kernel)
+
+theorem acgtu_ne_gap : ∀ b : UInt8, Table.isACGTU b = true → Table.present b = true :=
+  forall_uint8 (by decide +kernel)
+
+theorem ne13_of_ge45 : ∀ b : UInt8, 45 ≤ b → b ≠ 13 :=
+  forall_uint8 (by decide +kernel)
+
+/-! ## 1. `keepRow` against `sitePasses` -/
+
+/-- COUNTEREXAMPLE to the unconditional statement: byte 13 is scored like `-` by the model -/
+theorem keepRow_ne_sitePasses_CR :
+    Arr.keepRow .noAmbigOrConst false [65, 13] = true ∧
+    Table.sitePasses (toSite .noAmbigOrConst) false [65, 13] = false := by decide
+
+/-- weakest form: the only disagreement is `noAmbigOrConst`, gaps counted, a cell equal to 13 -/
+theorem keepRow_eq_sitePasses_of_noCR (ft : FilterType) (gaps : Bool) (row : List UInt8)
+    (h : ft ≠ .noAmbigOrConst ∨ gaps = true ∨ ∀ b ∈ row, b ≠ 13) :
+    Arr.keepRow ft gaps row = Table.sitePasses (toSite ft) gaps row := by
+  cases ft with
+  | noFilter => rfl
+  | noConst =>
+    show decide (_ > 1) = decide (_ ≥ 2)
+    rfl
+  | noAmbig => rfl
+  | noAmbigOrConst =>
+    rw [keepRow_noAmbigOrConst]
+    show decide (_ > 1) = decide (_ ≥ 2)
+    have key : ((Arr.distinct row).map (score gaps)).sum
+        = ((Table.distinctSyms row).filter (fun b => Table.isACGTU b || (b == gap && !gaps))).length := by
+      cases gaps with
+      | true =>
+        exact sum_map_indicator _ _ score_true _
+      | false =>
+        have h13 : ∀ b ∈ row, b ≠ 13 := by
+          rcases h with h | h | h
+          · exact absurd rfl h
+          · exact absurd h (by decide)
+          · exact h
+        have hm : (Arr.distinct row).map (score false)
+            = (Arr.distinct row).map (fun b => if (Table.isACGTU b || (b == gap && !false)) then 1 else 0) := by
+          apply List.map_congr_left
+          intro b hb
+          exact score_false b (h13 b (List.mem_eraseDups.mp hb))
+        rw [hm]
+        exact sum_map_indicator _ _ (fun _ => rfl) _
+    rw [key]
+    rfl
+
+/-- deliverable 1, under the stored-cell invariant -/
+theorem keepRow_eq_sitePasses (ft : FilterType) (gaps : Bool) (row : List UInt8)
+    (h : ∀ b ∈ row, 45 ≤ b) :
+    Arr.keepRow ft gaps row = Table.sitePasses (toSite ft) gaps row :=
+  keepRow_eq_sitePasses_of_noCR ft gaps row (Or.inr (Or.inr (fun b hb => ne13_of_ge45 b (h b hb))))
+
+theorem cellCount_eq_presentCount (famb : Bool) (row : List UInt8) :
+    Arr.cellCount famb row = Table.presentCount famb row := rfl
+
+/-! ## 2. `Arr.filter` -/
+
+/-- the row test the model applies: present in at least `max 1 t` samples, and `keepRow` -/
+def passesI (t : Nat) (famb : Bool) (ft : FilterType) (gaps : Bool) (row : List UInt8) : Bool :=
+  decide (Table.presentCount famb row ≥ max 1 t) && Arr.keepRow ft gaps row
+
+theorem count_pred (n t : Nat) : (decide (n ≥ t) && decide (n > 0)) = decide (n ≥ max 1 t) := by
+  rw [Bool.eq_iff_iff]
+  simp only [Bool.and_eq_true, decide_eq_true_eq]
+  omega
+
+/-- `count > 0 ∧ count ≥ t ∧ keepRow` is `passesI` -/
+theorem pred_eq (t : Nat) (famb : Bool) (ft : FilterType) (gaps : Bool) (row : List UInt8) :
+    ((decide (Arr.cellCount famb row ≥ t) && Arr.keepRow ft gaps row) && decide (Arr.cellCount famb row > 0))
+      = passesI t famb ft gaps row := by
+  unfold passesI
+  rw [cellCount_eq_presentCount, ← count_pred]
+  cases Arr.keepRow ft gaps row <;> simp
+
+theorem passesI_eq_passes (t : Nat) (famb : Bool) (ft : FilterType) (gaps : Bool) (row : List UInt8)
+    (h : ∀ b ∈ row, 45 ≤ b) :
+    passesI t famb ft gaps row = Table.passes t famb (toSite ft) gaps row := by
+  unfold passesI Table.passes
+  rw [keepRow_eq_sitePasses ft gaps row h]
+
+/-- rows (cells, k-mer) the model keeps, in the order `filter` zips them -/
+def keptI (a : Arr) (t : Nat) (famb : Bool) (ft : FilterType) (gaps : Bool) : List (List UInt8 × Nat) :=
+  (a.variants.zip a.kmers).filter (fun rk => passesI t famb ft gaps rk.1)
+
+/-- rows surviving `update_counts` -/
+def kept0 (a : Arr) (famb : Bool) : List (List UInt8 × Nat) :=
+  (a.variants.zip a.kmers).filter (fun rk => Arr.cellCount famb rk.1 > 0)
+
+theorem kept_filter (a : Arr) (t : Nat) (famb : Bool) (ft : FilterType) (gaps : Bool) :
+    List.filter (fun x => ((fun (crk : (Nat × List UInt8) × Nat) =>
+        decide (crk.fst.fst ≥ t) && Arr.keepRow ft gaps crk.fst.snd) ∘
+          fun (x : List UInt8 × Nat) => ((Arr.cellCount famb x.fst, x.fst), x.snd)) x &&
+        decide (Arr.cellCount famb x.fst > 0)) (a.variants.zip a.kmers) = keptI a t famb ft gaps := by
+  unfold keptI
+  apply List.filter_congr
+  intro x _
+  exact pred_eq t famb ft gaps x.1
+
+theorem filter_names (a : Arr) (t : Nat) (famb : Bool) (ft : FilterType) (mask gaps upd : Bool) :
+    (a.filter t famb ft mask gaps upd).1.names = a.names := rfl
+
+theorem filter_variants (a : Arr) (t : Nat) (famb : Bool) (ft : FilterType) (mask gaps upd : Bool) :
+    (a.filter t famb ft mask gaps upd).1.variants
+      = (keptI a t famb ft gaps).map (fun rk => Table.maskRow mask rk.1) := by
+  simp only [Arr.filter, Arr.updateCounts, List.zip_map', List.filter_map, List.map_map,
+    List.filter_filter]
+  rw [kept_filter]
+  cases mask <;> simp only [Table.maskRow, if_true, if_false, Bool.false_eq_true] <;> rfl
+
+theorem filter_counts (a : Arr) (t : Nat) (famb : Bool) (ft : FilterType) (mask gaps upd : Bool) :
+    (a.filter t famb ft mask gaps upd).1.counts
+      = (keptI a t famb ft gaps).map (fun rk => Arr.cellCount famb rk.1) := by
+  simp only [Arr.filter, Arr.updateCounts, List.zip_map', List.filter_map, List.map_map,
+    List.filter_filter]
+  rw [kept_filter]
+  rfl
+
+theorem filter_kmers_upd (a : Arr) (t : Nat) (famb : Bool) (ft : FilterType) (mask gaps : Bool) :
+    (a.filter t famb ft mask gaps true).1.kmers = (keptI a t famb ft gaps).map (·.2) := by
+  simp only [Arr.filter, Arr.updateCounts, List.zip_map', List.filter_map, List.map_map,
+    List.filter_filter]
+  rw [kept_filter]
+  rfl
+
+/-- without `update_kmers` the k-mer list is the one `update_counts` left -/
+theorem filter_kmers_noupd (a : Arr) (t : Nat) (famb : Bool) (ft : FilterType) (mask gaps : Bool) :
+    (a.filter t famb ft mask gaps false).1.kmers = (kept0 a famb).map (·.2) := by
+  simp only [Arr.filter, Arr.updateCounts]
+  rfl
+
+theorem filter_removed (a : Arr) (t : Nat) (famb : Bool) (ft : FilterType) (mask gaps upd : Bool) :
+    (a.filter t famb ft mask gaps upd).2 = (kept0 a famb).length - (keptI a t famb ft gaps).length := by
+  simp only [Arr.filter, Arr.updateCounts, List.zip_map', List.filter_map, List.map_map,
+    List.filter_filter, List.length_map]
+  rw [kept_filter]
+  rfl
+
+/-! ### In terms of the abstract table -/
+
+/-- the passing rows of the table (model-level test) -/
+def rowsI (a : Arr) (t : Nat) (famb : Bool) (ft : FilterType) (gaps : Bool) : List (Nat × List UInt8) :=
+  a.abs.rows.filter (fun r => passesI t famb ft gaps r.2)
+
+theorem keptI_eq (a : Arr) (t : Nat) (famb : Bool) (ft : FilterType) (gaps : Bool) :
+    keptI a t famb ft gaps = (rowsI a t famb ft gaps).map Prod.swap := by
+  unfold keptI rowsI Arr.abs
+  rw [← zip_swap a.kmers a.variants, List.filter_map]
+  rfl
+
+theorem kept0_eq (a : Arr) (famb : Bool) :
+    kept0 a famb = (a.abs.rows.filter (fun r => decide (Table.presentCount famb r.2 > 0))).map Prod.swap := by
+  unfold kept0 Arr.abs
+  rw [← zip_swap a.kmers a.variants, List.filter_map]
+  rfl
+
+theorem mem_rows_variants (a : Arr) (r : Nat × List UInt8) (h : r ∈ a.abs.rows) : r.2 ∈ a.variants := by
+  unfold Arr.abs at h
+  exact (List.of_mem_zip (a := r.1) (b := r.2) h).2
+
+/-- spec-level passing rows coincide with the model-level ones under `CellsGe45` -/
+theorem rowsI_eq_spec (a : Arr) (t : Nat) (famb : Bool) (ft : FilterType) (gaps : Bool)
+    (hc : CellsGe45 a.variants) :
+    rowsI a t famb ft gaps = a.abs.rows.filter (fun r => Table.passes t famb (toSite ft) gaps r.2) := by
+  unfold rowsI
+  apply List.filter_congr
+  intro r hr
+  exact passesI_eq_passes t famb ft gaps r.2 (hc r.2 (mem_rows_variants a r hr))
+
+/-- model-level `alignColumns` (with `keepRow` for the site test) -/
+def alignColumnsI (tb : Table) (t : Nat) (famb : Bool) (ft : FilterType) (mask gaps : Bool) : List (List UInt8) :=
+  ((tb.rows.map (·.2)).filter (passesI t famb ft gaps)).map (Table.maskRow mask)
+
+theorem alignColumnsI_eq_spec (a : Arr) (t : Nat) (famb : Bool) (ft : FilterType) (mask gaps : Bool)
+    (hc : CellsGe45 a.variants) :
+    alignColumnsI a.abs t famb ft mask gaps = a.abs.alignColumns t famb (toSite ft) mask gaps := by
+  unfold alignColumnsI Table.alignColumns
+  congr 1
+  apply List.filter_congr
+  intro row hrow
+  obtain ⟨r, hr, rfl⟩ := List.mem_map.mp hrow
+  exact passesI_eq_passes t famb ft gaps r.2 (hc r.2 (mem_rows_variants a r hr))
+
+/-- with `lenV` the rows of the table are exactly the stored rows -/
+theorem abs_rows_snd (a : Arr) (h : a.variants.length = a.kmers.length) :
+    a.abs.rows.map (·.2) = a.variants := by
+  unfold Arr.abs
+  exact List.map_snd_zip (Nat.le_of_eq h)
+
+theorem abs_rows_fst (a : Arr) (h : a.variants.length = a.kmers.length) :
+    a.abs.rows.map (·.1) = a.kmers := by
+  unfold Arr.abs
+  exact List.map_fst_zip (Nat.le_of_eq h.symm)
+
+/-- T06_filter (unconditional, model-level site test): with `update_kmers` the surviving
+k-mers and masked rows are exactly the passing rows of the table, in order -/
+theorem T06_filter_I (a : Arr) (t : Nat) (famb : Bool) (ft : FilterType) (mask gaps : Bool) :
+    (a.filter t famb ft mask gaps true).1.kmers.zip (a.filter t famb ft mask gaps true).1.variants
+      = (rowsI a t famb ft gaps).map (fun r => (r.1, Table.maskRow mask r.2)) := by
+  rw [filter_kmers_upd, filter_variants, keptI_eq, List.map_map, List.map_map, List.zip_map']
+  rfl
+
+theorem T06_filter_variants_I (a : Arr) (t : Nat) (famb : Bool) (ft : FilterType) (mask gaps upd : Bool) :
+    (a.filter t famb ft mask gaps upd).1.variants = alignColumnsI a.abs t famb ft mask gaps := by
+  rw [filter_variants, keptI_eq, List.map_map]
+  unfold alignColumnsI rowsI
+  rw [List.filter_map, List.map_map]
+  rfl
+
+/-- exact removed count: rows that `update_counts` kept minus rows that pass.
+(Rows with count 0 are dropped by `update_counts` and are NOT counted as removed.) -/
+theorem T06_filter_removed_I (a : Arr) (t : Nat) (famb : Bool) (ft : FilterType) (mask gaps upd : Bool) :
+    (a.filter t famb ft mask gaps upd).2
+      = (a.abs.rows.filter (fun r => decide (Table.presentCount famb r.2 > 0))).length
+        - (rowsI a t famb ft gaps).length := by
+  rw [filter_removed, keptI_eq, kept0_eq, List.length_map, List.length_map]
+
+/-- T06_filter: deliverable 2, against the specification -/
+theorem T06_filter (a : Arr) (hc : CellsGe45 a.variants)
+    (t : Nat) (famb : Bool) (ft : FilterType) (mask gaps : Bool) :
+    (a.filter t famb ft mask gaps true).1.kmers.zip (a.filter t famb ft mask gaps true).1.variants
+      = (a.abs.rows.filter (fun r => Table.passes t famb (toSite ft) gaps r.2)).map
+          (fun r => (r.1, Table.maskRow mask r.2)) := by
+  rw [T06_filter_I, rowsI_eq_spec a t famb ft gaps hc]
+
+theorem T06_filter_variants (a : Arr) (hc : CellsGe45 a.variants)
+    (t : Nat) (famb : Bool) (ft : FilterType) (mask gaps upd : Bool) :
+    (a.filter t famb ft mask gaps upd).1.variants = a.abs.alignColumns t famb (toSite ft) mask gaps := by
+  rw [T06_filter_variants_I, alignColumnsI_eq_spec a t famb ft mask gaps hc]
+
+/-- the same with the table rows replaced by the stored rows (`lenV`) -/
+theorem T06_filter_variants_stored (a : Arr) (hwf : a.WF) (hc : CellsGe45 a.variants)
+    (t : Nat) (famb : Bool) (ft : FilterType) (mask gaps upd : Bool) :
+    (a.filter t famb ft mask gaps upd).1.variants
+      = (a.variants.filter (Table.passes t famb (toSite ft) gaps)).map (Table.maskRow mask) := by
+  rw [T06_filter_variants a hc, Table.alignColumns, abs_rows_snd a hwf.lenV]
+
+theorem T06_filter_removed (a : Arr) (hc : CellsGe45 a.variants)
+    (t : Nat) (famb : Bool) (ft : FilterType) (mask gaps upd : Bool) :
+    (a.filter t famb ft mask gaps upd).2
+      = (a.abs.rows.filter (fun r => decide (Table.presentCount famb r.2 > 0))).length
+        - (a.abs.rows.filter (fun r => Table.passes t famb (toSite ft) gaps r.2)).length := by
+  rw [T06_filter_removed_I, rowsI_eq_spec a t famb ft gaps hc]
+
+theorem presentCount_pos_of_present (row : List UInt8) (h : ∃ b ∈ row, b ≠ GAP) :
+    Table.presentCount false row > 0 := by
+  obtain ⟨b, hb, hne⟩ := h
+  unfold Table.presentCount
+  apply List.length_pos_of_mem (a := b)
+  rw [List.mem_filter]
+  refine ⟨hb, ?_⟩
+  have : (b != gap) = true := bne_iff_ne.mpr hne
+  simp [Table.present, this]
+
+/-- removed = stored rows − passing rows, when every stored row is present somewhere
+(`RowsPresent`) and ambiguity codes count as present (`famb = false`).
+For `famb = true` this is FALSE in general: see `removed_counterexample`. -/
+theorem T06_filter_removed_rowsPresent (a : Arr) (hwf : a.WF) (hp : a.RowsPresent)
+    (hc : CellsGe45 a.variants) (t : Nat) (ft : FilterType) (mask gaps upd : Bool) :
+    (a.filter t false ft mask gaps upd).2
+      = a.kmers.length
+        - (a.abs.rows.filter (fun r => Table.passes t false (toSite ft) gaps r.2)).length := by
+  rw [T06_filter_removed a hc]
+  have hall : a.abs.rows.filter (fun r => decide (Table.presentCount false r.2 > 0)) = a.abs.rows := by
+    rw [List.filter_eq_self]
+    intro r hr
+    exact decide_eq_true (presentCount_pos_of_present r.2 (hp r.2 (mem_rows_variants a r hr)))
+  rw [hall]
+  have : a.abs.rows.length = a.kmers.length := by
+    unfold Arr.abs
+    rw [List.length_zip, hwf.lenV, Nat.min_self]
+  rw [this]
+
+/-! ### Stored counts and shape of the result -/
+
+/-- the stored counts after `filter` are `cellCount famb` of the (unmasked) surviving rows -/
+theorem T06_filter_counts_I (a : Arr) (t : Nat) (famb : Bool) (ft : FilterType) (mask gaps upd : Bool) :
+    (a.filter t famb ft mask gaps upd).1.counts
+      = ((a.abs.rows.map (·.2)).filter (passesI t famb ft gaps)).map (Arr.cellCount famb) := by
+  rw [filter_counts, keptI_eq, List.map_map]
+  unfold rowsI
+  rw [List.filter_map, List.map_map]
+  rfl
+
+/-- … i.e. of the rows `filter` returns without masking -/
+theorem T06_filter_counts_unmasked (a : Arr) (t : Nat) (famb : Bool) (ft : FilterType) (mask gaps upd : Bool) :
+    (a.filter t famb ft mask gaps upd).1.counts
+      = (a.filter t famb ft false gaps upd).1.variants.map (Arr.cellCount famb) := by
+  rw [filter_counts, filter_variants, List.map_map]
+  rfl
+
+theorem T06_filter_counts (a : Arr) (hc : CellsGe45 a.variants)
+    (t : Nat) (famb : Bool) (ft : FilterType) (mask gaps upd : Bool) :
+    (a.filter t famb ft mask gaps upd).1.counts
+      = ((a.abs.rows.map (·.2)).filter (Table.passes t famb (toSite ft) gaps)).map
+          (Table.presentCount famb) := by
+  rw [T06_filter_counts_I]
+  congr 1
+  apply List.filter_congr
+  intro row hrow
+  obtain ⟨r, hr, rfl⟩ := List.mem_map.mp hrow
+  exact passesI_eq_passes t famb ft gaps r.2 (hc r.2 (mem_rows_variants a r hr))
+
+/-- every stored count of the result is at least `max 1 t` -/
+theorem T06_filter_counts_ge (a : Arr) (t : Nat) (famb : Bool) (ft : FilterType) (mask gaps upd : Bool) :
+    ∀ c ∈ (a.filter t famb ft mask gaps upd).1.counts, c ≥ max 1 t := by
+  intro c hcm
+  rw [T06_filter_counts_I] at hcm
+  obtain ⟨row, hrow, rfl⟩ := List.mem_map.mp hcm
+  have := (List.mem_filter.mp hrow).2
+  unfold passesI at this
+  rw [Bool.and_eq_true] at this
+  exact of_decide_eq_true this.1
+
+theorem length_maskRow (mask : Bool) (row : List UInt8) : (Table.maskRow mask row).length = row.length := by
+  unfold Table.maskRow
+  cases mask <;> simp
+
+/-- lengths stay aligned: the result of `filter … update_kmers = true` is well-formed -/
+theorem T06_filter_WF (a : Arr) (hwf : a.WF) (t : Nat) (famb : Bool) (ft : FilterType) (mask gaps : Bool) :
+    (a.filter t famb ft mask gaps true).1.WF := by
+  refine ⟨?_, ?_, ?_, ?_⟩
+  · rw [filter_variants, filter_kmers_upd, List.length_map, List.length_map]
+  · rw [filter_counts, filter_kmers_upd, List.length_map, List.length_map]
+  · intro row hrow
+    rw [filter_variants] at hrow
+    obtain ⟨rk, hrk, rfl⟩ := List.mem_map.mp hrow
+    rw [length_maskRow, filter_names]
+    have hz : rk ∈ a.variants.zip a.kmers := (List.mem_filter.mp hrk).1
+    exact hwf.rowLen rk.1 (List.of_mem_zip (a := rk.1) (b := rk.2) hz).1
+  · rw [filter_kmers_upd, keptI_eq, List.map_map]
+    have hs : ((rowsI a t famb ft gaps).map (Prod.snd ∘ Prod.swap)).Sublist (a.abs.rows.map (·.1)) :=
+      List.Sublist.map _ List.filter_sublist
+    rw [abs_rows_fst a hwf.lenV] at hs
+    exact hs.nodup hwf.nodup
+
+/-- `CellsGe45` is preserved by `filter` (78 = `N` ≥ 45) -/
+theorem T06_filter_cellsGe45 (a : Arr) (hc : CellsGe45 a.variants)
+    (t : Nat) (famb : Bool) (ft : FilterType) (mask gaps upd : Bool) :
+    CellsGe45 (a.filter t famb ft mask gaps upd).1.variants := by
+  intro row hrow b hb
+  rw [filter_variants] at hrow
+  obtain ⟨rk, hrk, rfl⟩ := List.mem_map.mp hrow
+  have hz : rk ∈ a.variants.zip a.kmers := (List.mem_filter.mp hrk).1
+  have hv : rk.1 ∈ a.variants := (List.of_mem_zip (a := rk.1) (b := rk.2) hz).1
+  unfold Table.maskRow at hb
+  cases mask with
+  | false => exact hc rk.1 hv b hb
+  | true =>
+    simp only [if_true, List.mem_map] at hb
+    obtain ⟨c, hcm, rfl⟩ := hb
+    by_cases hamb : isAmbiguous c = true
+    · simp only [hamb, if_true]; decide
+    · simp only [hamb]; exact hc rk.1 hv c hcm
+
+/-! ## 3. `Modes.align` -/
+
+theorem T06_align_I (a : Arr) (t : Nat) (ft : FilterType) (mask gaps famb : Bool) :
+    Modes.align a t ft mask gaps famb
+      = a.names.zipIdx.map (fun ni =>
+          (ni.1, (alignColumnsI a.abs t famb ft mask gaps).map (fun col => col.getD ni.2 GAP))) := by
+  unfold Modes.align Modes.applyFilters Arr.writeFasta Arr.column
+  rw [filter_names, T06_filter_variants_I]
+
+/-- deliverable 3: one record per sample in `names` order; the sequence of sample `i` is the
+`i`-th cell of every emitted column, in table order -/
+theorem T06_align (a : Arr) (hc : CellsGe45 a.variants)
+    (t : Nat) (ft : FilterType) (mask gaps famb : Bool) :
+    Modes.align a t ft mask gaps famb
+      = a.names.zipIdx.map (fun ni =>
+          (ni.1, (a.abs.alignColumns t famb (toSite ft) mask gaps).map (fun col => col.getD ni.2 GAP))) := by
+  rw [T06_align_I, alignColumnsI_eq_spec a t famb ft mask gaps hc]
+
+/-- sample order = names order -/
+theorem T06_align_names (a : Arr) (t : Nat) (ft : FilterType) (mask gaps famb : Bool) :
+    (Modes.align a t ft mask gaps famb).map (·.1) = a.names := by
+  rw [T06_align_I, List.map_map]
+  show List.map Prod.fst a.names.zipIdx = a.names
+  simp
+
+/-- every output sequence has one character per emitted column -/
+theorem T06_align_lengths (a : Arr) (hc : CellsGe45 a.variants)
+    (t : Nat) (ft : FilterType) (mask gaps famb : Bool) :
+    ∀ rec ∈ Modes.align a t ft mask gaps famb,
+      rec.2.length = (a.abs.alignColumns t famb (toSite ft) mask gaps).length := by
+  intro rec hrec
+  rw [T06_align a hc] at hrec
+  obtain ⟨ni, _, rfl⟩ := List.mem_map.mp hrec
+  simp
+
+/-! ## 4. Monotonicity: stricter settings emit a sublist (hence sub-multiset) of the columns
+
+All statements hold for arbitrary byte rows (checked by `#eval` on adversarial rows with
+lower case, `U`, `N`, ambiguity codes, CR, 0, 255 before proving); no hypothesis is needed. -/
+
+theorem alignColumns_sublist_of_imp (tb : Table) (t t' : Nat) (famb famb' : Bool)
+    (ft ft' : Table.SiteFilter) (mask gaps gaps' : Bool)
+    (h : ∀ row, Table.passes t' famb' ft' gaps' row = true → Table.passes t famb ft gaps row = true) :
+    (tb.alignColumns t' famb' ft' mask gaps').Sublist (tb.alignColumns t famb ft mask gaps) := by
+  unfold Table.alignColumns
+  exact List.Sublist.map _ (filter_sublist_of_imp _ h)
+
+theorem passes_iff (t : Nat) (famb : Bool) (ft : Table.SiteFilter) (gaps : Bool) (row : List UInt8) :
+    Table.passes t famb ft gaps row = true ↔
+      (Table.presentCount famb row ≥ max 1 t ∧ Table.sitePasses ft gaps row = true) := by
+  unfold Table.passes
+  rw [Bool.and_eq_true, decide_eq_true_eq]
+
+theorem presentCount_famb_le (row : List UInt8) :
+    Table.presentCount true row ≤ Table.presentCount false row := by
+  unfold Table.presentCount
+  apply length_filter_le_of_imp
+  intro b hb
+  rw [Bool.and_eq_true] at hb
+  simp [hb.1]
+
+/-- a larger minimum count emits fewer columns -/
+theorem T06_mono_t (tb : Table) (t t' : Nat) (h : t ≤ t') (famb : Bool) (ft : Table.SiteFilter)
+    (mask gaps : Bool) :
+    (tb.alignColumns t' famb ft mask gaps).Sublist (tb.alignColumns t famb ft mask gaps) := by
+  apply alignColumns_sublist_of_imp
+  intro row
+  rw [passes_iff, passes_iff]
+  intro hp
+  refine ⟨?_, hp.2⟩
+  have := hp.1
+  omega
+
+/-- counting ambiguity codes as missing emits fewer columns -/
+theorem T06_mono_famb (tb : Table) (t : Nat) (ft : Table.SiteFilter) (mask gaps : Bool) :
+    (tb.alignColumns t true ft mask gaps).Sublist (tb.alignColumns t false ft mask gaps) := by
+  apply alignColumns_sublist_of_imp
+  intro row
+  rw [passes_iff, passes_iff]
+  intro hp
+  exact ⟨Nat.le_trans hp.1 (presentCount_famb_le row), hp.2⟩
+
+theorem length_distinct_filter_le (row : List UInt8) (p q : UInt8 → Bool)
+    (h : ∀ b, p b = true → q b = true) :
+    (Table.distinctSyms (row.filter p)).length ≤ (Table.distinctSyms (row.filter q)).length := by
+  unfold Table.distinctSyms
+  rw [eraseDups_filter, eraseDups_filter]
+  exact length_filter_le_of_imp _ h
+
+theorem sitePasses_gaps (ft : Table.SiteFilter) (row : List UInt8) :
+    Table.sitePasses ft true row = true → Table.sitePasses ft false row = true := by
+  cases ft with
+  | noFilter => exact id
+  | noAmbig => exact id
+  | noConst =>
+    unfold Table.sitePasses
+    simp only [decide_eq_true_eq]
+    intro h
+    exact Nat.le_trans h (length_distinct_filter_le row _ _ (fun _ _ => rfl))
+  | noAmbigOrConst =>
+    unfold Table.sitePasses
+    simp only [decide_eq_true_eq]
+    intro h
+    refine Nat.le_trans h (length_filter_le_of_imp _ ?_)
+    intro b hb
+    rw [Bool.or_eq_true] at hb ⊢
+    rcases hb with hb | hb
+    · exact Or.inl hb
+    · simp at hb
+
+/-- ignoring gap-only variation emits fewer columns -/
+theorem T06_mono_gaps (tb : Table) (t : Nat) (famb : Bool) (ft : Table.SiteFilter) (mask : Bool) :
+    (tb.alignColumns t famb ft mask true).Sublist (tb.alignColumns t famb ft mask false) := by
+  apply alignColumns_sublist_of_imp
+  intro row
+  rw [passes_iff, passes_iff]
+  intro hp
+  exact ⟨hp.1, sitePasses_gaps ft row hp.2⟩
+
+/-- for `noFilter` and `noAmbig` the gap flag is irrelevant -/
+theorem T06_gaps_irrelevant (tb : Table) (t : Nat) (famb : Bool) (ft : Table.SiteFilter) (mask : Bool)
+    (h : ft = .noFilter ∨ ft = .noAmbig) :
+    tb.alignColumns t famb ft mask true = tb.alignColumns t famb ft mask false := by
+  rcases h with rfl | rfl <;> rfl
+
+theorem T06_mono_noConst (tb : Table) (t : Nat) (famb mask gaps : Bool) :
+    (tb.alignColumns t famb .noConst mask gaps).Sublist (tb.alignColumns t famb .noFilter mask gaps) := by
+  apply alignColumns_sublist_of_imp
+  intro row
+  rw [passes_iff, passes_iff]
+  intro hp
+  exact ⟨hp.1, rfl⟩
+
+theorem T06_mono_noAmbig (tb : Table) (t : Nat) (famb mask gaps : Bool) :
+    (tb.alignColumns t famb .noAmbig mask gaps).Sublist (tb.alignColumns t famb .noFilter mask gaps) := by
+  apply alignColumns_sublist_of_imp
+  intro row
+  rw [passes_iff, passes_iff]
+  intro hp
+  exact ⟨hp.1, rfl⟩
+
+theorem sitePasses_noAmbigOrConst_noConst (gaps : Bool) (row : List UInt8) :
+    Table.sitePasses .noAmbigOrConst gaps row = true → Table.sitePasses .noConst gaps row = true := by
+  unfold Table.sitePasses
+  simp only [decide_eq_true_eq]
+  intro h
+  refine Nat.le_trans h ?_
+  show _ ≤ (Table.distinctSyms (row.filter _)).length
+  unfold Table.distinctSyms
+  rw [eraseDups_filter]
+  apply length_filter_le_of_imp
+  intro b hb
+  cases gaps with
+  | false => rfl
+  | true =>
+    rw [Bool.or_eq_true] at hb
+    rcases hb with hb | hb
+    · simpa using acgtu_ne_gap b hb
+    · simp at hb
+
+theorem T06_mono_noAmbigOrConst (tb : Table) (t : Nat) (famb mask gaps : Bool) :
+    (tb.alignColumns t famb .noAmbigOrConst mask gaps).Sublist
+      (tb.alignColumns t famb .noConst mask gaps) := by
+  apply alignColumns_sublist_of_imp
+  intro row
+  rw [passes_iff, passes_iff]
+  intro hp
+  exact ⟨hp.1, sitePasses_noAmbigOrConst_noConst gaps row hp.2⟩
+
+/-- deliverable 4, collected -/
+theorem T06_mono (tb : Table) (mask : Bool) :
+    (∀ t t' famb ft gaps, t ≤ t' →
+      (tb.alignColumns t' famb ft mask gaps).Sublist (tb.alignColumns t famb ft mask gaps)) ∧
+    (∀ t ft gaps,
+      (tb.alignColumns t true ft mask gaps).Sublist (tb.alignColumns t false ft mask gaps)) ∧
+    (∀ t famb ft,
+      (tb.alignColumns t famb ft mask true).Sublist (tb.alignColumns t famb ft mask false)) ∧
+    (∀ t famb gaps,
+      (tb.alignColumns t famb .noConst mask gaps).Sublist (tb.alignColumns t famb .noFilter mask gaps)) ∧
+    (∀ t famb gaps,
+      (tb.alignColumns t famb .noAmbig mask gaps).Sublist (tb.alignColumns t famb .noFilter mask gaps)) ∧
+    (∀ t famb gaps,
+      (tb.alignColumns t famb .noAmbigOrConst mask gaps).Sublist
+        (tb.alignColumns t famb .noConst mask gaps)) :=
+  ⟨fun t t' famb ft gaps h => T06_mono_t tb t t' h famb ft mask gaps,
+   fun t ft gaps => T06_mono_famb tb t ft mask gaps,
+   fun t famb ft => T06_mono_gaps tb t famb ft mask,
+   fun t famb gaps => T06_mono_noConst tb t famb mask gaps,
+   fun t famb gaps => T06_mono_noAmbig tb t famb mask gaps,
+   fun t famb gaps => T06_mono_noAmbigOrConst tb t famb mask gaps⟩
+
+/-- NOT an inclusion: `noAmbigOrConst` does not imply `noAmbig` — a site with two distinct
+unambiguous bases passes `noAmbigOrConst` even when another sample carries an ambiguity code -/
+theorem noAmbigOrConst_not_sub_noAmbig :
+    Table.sitePasses .noAmbigOrConst false [77, 65, 67] = true ∧
+    Table.sitePasses .noAmbig false [77, 65, 67] = false := by decide
+
+/-! ## Deliverable 2 collected -/
+
+/-- everything `filter` returns, in terms of the table `a.abs` (only `lenV` of `WF` is used,
+for `a.abs.rows.map (·.2) = a.variants`) -/
+theorem T06_filter_all (a : Arr) (hwf : a.WF) (hc : CellsGe45 a.variants)
+    (t : Nat) (famb : Bool) (ft : FilterType) (mask gaps : Bool) :
+    ((a.filter t famb ft mask gaps true).1.kmers.zip (a.filter t famb ft mask gaps true).1.variants
+        = (a.abs.rows.filter (fun r => Table.passes t famb (toSite ft) gaps r.2)).map
+            (fun r => (r.1, Table.maskRow mask r.2))) ∧
+    (∀ upd, (a.filter t famb ft mask gaps upd).1.variants
+        = a.abs.alignColumns t famb (toSite ft) mask gaps) ∧
+    (∀ upd, (a.filter t famb ft mask gaps upd).1.variants
+        = (a.variants.filter (Table.passes t famb (toSite ft) gaps)).map (Table.maskRow mask)) ∧
+    (∀ upd, (a.filter t famb ft mask gaps upd).1.counts
+        = (a.filter t famb ft false gaps upd).1.variants.map (Arr.cellCount famb)) ∧
+    (∀ upd, (a.filter t famb ft mask gaps upd).2
+        = (a.variants.filter (fun r => decide (Table.presentCount famb r > 0))).length
+          - (a.variants.filter (Table.passes t famb (toSite ft) gaps)).length) ∧
+    (a.filter t famb ft mask gaps true).1.WF := by
+  refine ⟨T06_filter a hc t famb ft mask gaps,
+    fun upd => T06_filter_variants a hc t famb ft mask gaps upd,
+    fun upd => T06_filter_variants_stored a hwf hc t famb ft mask gaps upd,
+    fun upd => T06_filter_counts_unmasked a t famb ft mask gaps upd,
+    fun upd => ?_,
+    T06_filter_WF a hwf t famb ft mask gaps⟩
+  rw [T06_filter_removed a hc, ← abs_rows_snd a hwf.lenV, List.filter_map, List.filter_map,
+    List.length_map, List.length_map]
+  rfl
+
+/-! ## 5. Non-vacuity -/
+
+/-- three samples, three split k-mers: a constant site, a site with a gap, a site with `R` -/
+def exArr : Arr :=
+  { k := 3, rc := true, names := ["s1", "s2", "s3"], kmers := [1, 2, 3]
+    variants := [[65, 65, 65], [65, 67, 45], [82, 65, 71]]
+    counts := [3, 2, 3], kBits := 64 }
+
+theorem exArr_WF : exArr.WF := ⟨rfl, rfl, by decide, by decide⟩
+theorem exArr_cells : CellsGe45 exArr.variants := by decide
+theorem exArr_rowsPresent : exArr.RowsPresent := by unfold Arr.RowsPresent; decide
+
+-- min count 3: the gap site goes
+example : (exArr.filter 3 false .noFilter false false true).1.kmers = [1, 3] := by decide
+example : (exArr.filter 3 false .noFilter false false true).1.variants = [[65, 65, 65], [82, 65, 71]] := by decide
+example : (exArr.filter 3 false .noFilter false false true).2 = 1 := by decide
+-- ambiguity as missing: the `R` site has count 2
+example : (exArr.filter 3 true .noFilter false false true).1.kmers = [1] := by decide
+example : (exArr.filter 0 true .noFilter false false true).1.counts = [3, 2, 2] := by decide
+-- no constant sites, masked
+example : (exArr.filter 0 false .noConst true false true).1.variants = [[65, 67, 45], [78, 65, 71]] := by decide
+-- gap-only variation ignored: `A C -` still varies, so does `R A G`
+example : (exArr.filter 0 false .noConst false true true).1.kmers = [2, 3] := by decide
+-- no ambiguous sites
+example : (exArr.filter 0 false .noAmbig false false true).1.kmers = [1, 2] := by decide
+-- `noAmbigOrConst` keeps the `R A G` site (two distinct unambiguous bases)
+example : (exArr.filter 0 false .noAmbigOrConst true false true).1.variants = [[65, 67, 45], [78, 65, 71]] := by decide
+example : (exArr.filter 0 false .noAmbigOrConst true true true).1.variants = [[65, 67, 45], [78, 65, 71]] := by decide
+-- the alignment: one record per sample, one character per column
+example : Modes.align exArr 0 .noConst true false false
+    = [("s1", [65, 78]), ("s2", [67, 65]), ("s3", [45, 71])] := by decide
+-- the specification side gives the same columns
+example : exArr.abs.alignColumns 0 false .noConst true false = [[65, 67, 45], [78, 65, 71]] := by decide
+
+/-- the removed count does NOT count rows that `update_counts` drops: with
+`filter_ambig_as_missing` an all-`N` row disappears but is not reported as removed -/
+def exAllN : Arr :=
+  { k := 3, rc := true, names := ["s1", "s2", "s3"], kmers := [7]
+    variants := [[78, 78, 78]], counts := [3], kBits := 64 }
+
+theorem removed_counterexample :
+    exAllN.WF ∧ exAllN.RowsPresent ∧ CellsGe45 exAllN.variants ∧
+    (exAllN.filter 0 true .noFilter false false true).1.kmers = [] ∧
+    (exAllN.filter 0 true .noFilter false false true).2 = 0 ∧
+    exAllN.kmers.length
+      - (exAllN.abs.rows.filter (fun r => Table.passes 0 true .noFilter false r.2)).length = 1 :=
+  ⟨⟨rfl, rfl, by decide, by decide⟩, by unfold Arr.RowsPresent; decide, by decide, by decide, by decide,
+   by decide⟩
 
 end SkaModel.Props.C06
